@@ -401,6 +401,15 @@ func canonPath(info *types.Info, e ast.Expr) string {
 						root = name
 					}
 				}
+				// `vx := w.vx; vx.caps.rgb` is `w.vx.caps.rgb`: a pointer to a named repository struct anchors
+				// the path exactly as it does when the selector chain is written out
+				if _, isSel := unparen(src).(*ast.SelectorExpr); isSel && len(fields) > 0 {
+					if _, isPtr := info.TypeOf(src).(*types.Pointer); isPtr && !isAmbiguousAnchor(info.TypeOf(src)) {
+						if name := anchorType(info.TypeOf(src)); name != "" {
+							root = name
+						}
+					}
+				}
 				return joinPath(root, fields)
 			}
 			// the value variable of `for _, v := range X` stands for an element of X
